@@ -185,6 +185,36 @@ def scenarios():
     except (AttributeError, ImportError, KeyError) as ex:
         SKIPPED.append(f"scenario 'blowfish-tables' not built: {type(ex).__name__}: {ex}")
     try:
+        # J: hashers whose backend is a mixin class swapped into the bases (bcrypt family): first use while another thread verifies
+        import bcrypt as _bc
+        bh = _bc.hashpw(b"pw", _bc.gensalt(4)).decode()
+        owner = H.bcrypt._get_backend_owner()
+        mm = owner._backend_mixin_map
+        if "bcrypt" in owner.backends and mm and None in mm and hasattr(uh, "update_mixin_classes"):
+            def mk_mixin():
+                uh.update_mixin_classes(owner, add=mm[None], remove=list(mm.values()), append=True, before=uh.SubclassBackendMixin)
+                owner._BackendMixin__backend = None
+                return [lambda: H.bcrypt.verify("pw", bh), lambda: H.bcrypt.verify("px", bh)]
+            stub = [f for f in vars(mm[None]).values() if callable(f)]
+            out.append(dict(name="backend-mixin:bcrypt", lazy=False, make=mk_mixin, expected=[True, False],
+                            code=bcode + codes(A(uh.SubclassBackendMixin, "_set_backend"), uh.update_mixin_classes, *stub), init_names=()))
+    except (AttributeError, ImportError, KeyError, AssertionError) as ex:
+        SKIPPED.append(f"scenario 'J: backend mixin of the bcrypt family' not built: {type(ex).__name__}: {ex}")
+    try:
+        # K: the registry is enumerated while another thread loads a name for the first time
+        def mk_list():
+            reg._unload_handler_name("phpass", locations=False)
+
+            def b():
+                o = reg.get_crypt_handler("phpass")
+                return (o.name, o is getattr(H, "phpass"))
+            return [lambda: reg.list_crypt_handlers(), b, ]
+        reg.get_crypt_handler("phpass")
+        out.append(dict(name="registry-enumeration", lazy=False, make=mk_list, expected=[reg.list_crypt_handlers(), ("phpass", True)],
+                        code=codes(reg.list_crypt_handlers, reg.get_crypt_handler, reg.register_crypt_handler), init_names=()))
+    except (AttributeError, ImportError, KeyError) as ex:
+        SKIPPED.append(f"scenario 'K: registry enumeration during a first load' not built: {type(ex).__name__}: {ex}")
+    try:
         # I: digest lookups cache their result on first use
         import passlib.crypto.digest as pdig
 
